@@ -75,15 +75,30 @@ def apply_unified_diff(src: Source, diff_text: str) -> Dict[str, str]:
       if body and body[-1] == '':
         body = body[:-1]
       tgt = max(start - 1, 0)
-      # locate with fuzz: search the context/removed lines near tgt
-      want = [l[1:] for l in body if l[:1] in (' ', '-')]
+      # locate with fuzz: like patch(1), progressively drop leading/trailing
+      # context lines until the remaining context + removed lines match
+      lead = 0
+      while lead < len(body) and body[lead][:1] == ' ':
+        lead += 1
+      trail = 0
+      while trail < len(body) - lead and body[len(body) - 1 - trail][:1] == ' ':
+        trail += 1
       found = None
-      for delta in sorted(range(-400, 401), key=abs):
-        s = tgt + delta
-        if s < pos or s + len(want) > len(old_lines):
+      for fuzz in range(0, max(lead, trail) + 1):
+        dl, dt = min(fuzz, lead), min(fuzz, trail)
+        sub = body[dl:len(body) - dt] if dt else body[dl:]
+        want = [l[1:] for l in sub if l[:1] in (' ', '-')]
+        if not want:
           continue
-        if old_lines[s:s + len(want)] == want:
-          found = s
+        for delta in sorted(range(-600, 601), key=abs):
+          s0 = tgt + dl + delta
+          if s0 < pos or s0 + len(want) > len(old_lines):
+            continue
+          if old_lines[s0:s0 + len(want)] == want:
+            found = s0
+            break
+        if found is not None:
+          body = sub
           break
       if found is None:
         raise AnalysisError(f'patch hunk does not apply to {path} @ {start}')
@@ -95,7 +110,7 @@ def apply_unified_diff(src: Source, diff_text: str) -> Dict[str, str]:
           new_lines.append(l[1:])
         elif l.startswith('\\'):
           continue
-      pos = found + len(want)
+      pos = found + len([l for l in body if l[:1] in (' ', '-')])
     new_lines.extend(old_lines[pos:])
     overlay[path] = '\n'.join(new_lines)
   return overlay
